@@ -30,6 +30,18 @@ def make_target(kind):
             def f(x):
                 return x
         return f
+    if kind == "property_object":
+        # the decorator is written ABOVE @property: it is given the property object (here of a sub-class with a constructor that counts)
+        class CountingProperty(property):
+            made = [0]
+
+            def __init__(self, *args, **kwargs):
+                CountingProperty.made[0] += 1
+                super().__init__(*args, **kwargs)
+
+        def h(self):
+            return 1
+        return CountingProperty(h)
     if kind in ("static_object", "classm_object"):
         # the decorator is written ABOVE @staticmethod / @classmethod: it is given the descriptor object
         if kind == "static_object":
@@ -98,6 +110,10 @@ def call_violating(kind, decorated):
             class H:
                 m = decorated
             H.m(1)
+        elif kind == "property_object":
+            class H:
+                m = decorated
+            H().m
         elif kind in ("class", "plain_subclass", "dbc_subclass"):
             decorated(1)
         return "ret"
@@ -116,10 +132,10 @@ def table():
     # (falsy / truthy values that are not bool: e.g. os.environ.get("CHECKS") with the variable unset gives None)
     options = {"default": _UNSET, "True": True, "False": False, "SLOW": SLOW, "None": None, "0": 0, "empty_str": "", "1": 1}
     for deco in ("require", "ensure", "snapshot_over_enabled_ensure", "snapshot_over_same_ensure", "snapshot_over_bare", "invariant"):
-        kinds = ["class", "plain_subclass", "dbc_subclass"] if deco == "invariant" else ["function", "method", "static", "classm", "property", "async", "static_object", "classm_object"]
+        kinds = ["class", "plain_subclass", "dbc_subclass"] if deco == "invariant" else ["function", "method", "static", "classm", "property", "async", "static_object", "classm_object", "property_object"]
         for opt, val in options.items():
             for kind in kinds:
-                if kind in ("static_object", "classm_object") and deco not in ("require", "ensure", "snapshot_over_bare"):
+                if kind in ("static_object", "classm_object", "property_object") and deco not in ("require", "ensure", "snapshot_over_bare"):
                     continue  # (these two apply an ENABLED ensure first)
                 kw = {} if val is _UNSET else {"enabled": val}
                 COUNT["cond"] = COUNT["cap"] = 0
